@@ -107,7 +107,7 @@ def _simplify(ctx, p, ci):
     if which == 'grdp':
         return p.call('rdp.grdp', pts, t=t, distance=dist, cost=cost, order=order)
     if which == 'rdp_fixed':
-        return p.call('rdp.rdp_fixed', pts, length=rng.randint(3, max(3, min(n, 12))), distance=dist, order=order)
+        return p.call('rdp.rdp_fixed', pts, length=rng.choice([2, rng.randint(3, max(3, min(n, 12))), n]), distance=dist, order=order)
     if which == 'mp_grdp':
         return p.call('rdp.mp_grdp', pts, t=t, min_points=rng.randint(3, max(3, min(n, 12))), distance=dist, cost=cost, order=order)
     tl = ctx.of_kind('tlist')
@@ -119,7 +119,7 @@ def _simplify(ctx, p, ci):
 def _detect(ctx, p, pts):
     rng = ctx.rng
     which = rng.choice(['curvature', 'dfdt', 'menger', 'lmethod', 'kneedle', 'kneedle.knees', 'zmethod', 'zmethod2', 'single'])
-    t1 = F(rng.choice([0.001, 0.01, 0.1]))
+    t1 = F(rng.choice([0.001, 0.01, 0.1, 0.0, 0.5]))
     if which in ('curvature', 'dfdt'):
         return p.call(which + '.multi_knee', pts, t1, rng.choice([3, 4]))
     if which == 'menger':
@@ -127,9 +127,9 @@ def _detect(ctx, p, pts):
     if which == 'lmethod':
         return p.call('lmethod.multi_knee', pts, t1, rng.choice([4, 6]))
     if which == 'kneedle':
-        return p.call('kneedle.multi_knee', pts, t1, 3)
+        return p.call('kneedle.multi_knee', pts, t1, rng.choice([3, 3, 4, 6]))
     if which == 'kneedle.knees':
-        return p.call('kneedle.knees', pts, F(1.0), F(rng.choice([0.5, 1.0])),
+        return p.call('kneedle.knees', pts, F(rng.choice([1.0, 1.0, 0.0, 0.5, 3.0])), F(rng.choice([0.5, 1.0, 2.0])),
                       E('kneedle.PeakDetection.' + rng.choice(['Kneedle', 'ZScore', 'Significant', 'All'])))
     if which == 'zmethod':
         return p.call('zmethod.knees', pts, dx=F(rng.choice([0.05, 0.1])), dy=F(rng.choice([0.05, 0.1])),
@@ -188,7 +188,8 @@ def pipeline(ctx):
                          ty=F(rng.choice([0.05, 0.1])), extremes=rng.random() < 0.3))
     else:
         m = R(p.call('rdp.mapping', k, reduced, removed))
-        final = R(p.call('postprocessing.add_points_even_knees', pts, m, tx=F(0.05), ty=F(0.05), extremes=False))
+        final = R(p.call('postprocessing.add_points_even_knees', pts, m, tx=F(rng.choice([0.05, 0.02, 0.2])), ty=F(rng.choice([0.05, 0.01])),
+                         extremes=rng.random() < 0.15))
     ex = ctx.of_kind('expected', ci)
     if ex and rng.random() < 0.7:
         e = P(rng.choice(ex))
@@ -333,6 +334,13 @@ def primitives(ctx):
             p.call('evaluation.get_neighbourhood_binary', x, y, aa, bb, t)
             p.call('evaluation.get_neighbourhood_points', pts, aa, bb, t)
             p.call('evaluation.get_neighbourhood_fast_points', pts, aa, bb, t)
+            if b - a >= 4:
+                # the same on a row range of the delivered array (indices relative to the range)
+                a2 = rng.randint(2, b - a)
+                b2 = rng.randint(0, a2 - 1)
+                p.call('evaluation.get_neighbourhood_points', seg, a2, b2, t)
+                p.call('evaluation.get_neighbourhood_fast_points', seg, a2, b2, t)
+                p.call('evaluation.' + rng.choice(['accuracy_knee', 'accuracy_trace']), seg, {'list': sorted(set([max(1, b2), a2]))})
         elif g == 'partial':
             coef = R(p.call('linear_fit.linear_fit', x, y))
             yh = R(p.call('linear_fit.linear_transform', x, coef))
@@ -365,14 +373,20 @@ def primitives(ctx):
                 p.call('rdp.mapping', {'list': [0, 1]}, red, rem, False)
         elif g == 'detect1':
             det = rng.choice(['curvature.knee', 'dfdt.knee', 'menger.knee', 'lmethod.knee', 'kneedle.knee'])
-            p.call(det, seg)
+            if det == 'kneedle.knee' and rng.random() < 0.5:
+                p.call(det, seg, F(rng.choice([0.0, 0.5, 2.0])))
+            else:
+                p.call(det, seg)
+            if rng.random() < 0.3:
+                p.call('kneedle.knees', rng.choice([seg, pts]), F(rng.choice([0.0, 1.0, 2.0])), F(rng.choice([0.5, 1.0])),
+                       E('kneedle.PeakDetection.' + rng.choice(['Kneedle', 'ZScore', 'Significant', 'All'])))
         elif g == 'lmethod' and b - a >= 5:
             xs, ys = COL(seg, 0), COL(seg, 1)
             fit = E('lmethod.Fit.' + rng.choice(['best_fit', 'point_fit']))
             cst = E('lmethod.Cost.' + rng.choice(['rss', 'rmse']))
             p.call('lmethod.get_knee', xs, ys, fit, cst)
             p.call('lmethod.compute_error', xs, ys, rng.randint(2, b - a - 2), F(1.0), fit, cst)
-            p.call('lmethod.knee', seg, fit, E('lmethod.Refinement.' + rng.choice(['none', 'adjusted'])), rng.choice([3, 10]))
+            p.call('lmethod.knee', seg, fit, E('lmethod.Refinement.' + rng.choice(['none', 'adjusted', 'adjusted', 'original'])), rng.choice([3, 5, 10]))
         elif g == 'dfdt' and b - a >= 4:
             xs, ys = COL(seg, 0), COL(seg, 1)
             p.call('dfdt.get_knee', xs, ys)
